@@ -60,10 +60,11 @@ CONTRACTS = [
              ensures=["not g_idx_pending", "g_idx_commits == old(g_idx_commits) + 1"],
              trusted_reason="A-SQL: commit is atomic (restore view of VersionIndex.commit_changes)"),
     Contract("ext::ArchivePopen.wait", trusted_reason="waits for tar"),
-    Contract("ext::subprocess.Popen(list)", params={"args": "List[str]", "shell": "bool"}, returns="ArchivePopen", fresh_result=True,
+    Contract("ext::subprocess.Popen(tar)", params={"args": "List[str]", "shell": "bool"}, returns="ArchivePopen", fresh_result=True,
              raises={"OSError+": []}, trusted_reason="spawns tar (A-LIB: tar round-trips a directory tree)"),
 
     Contract(F + "::extract_archive", params={"archive_file": "Val[Path]", "staging_path": "Val[Path]"}, props=["C12"],
+             prefer_ext={"subprocess.Popen": "subprocess.Popen(tar)"},
              raises={"ArchiveFileInvalid": []},
              ensures=[]),
 
